@@ -8,12 +8,14 @@ META = {'claimed': True,
                'checker (C04_model_traces_accepted) and the checker is sound for the logical statement (C04_check_sound); corollaries for every program and schedule: no registration id is invoked '
                'twice (C04_invoke_at_most_once), every invoke is preceded by its register with no cancel and no earlier invoke (C04_invoke_only_while_registered), EEXIST only while a registration is '
                'live so a fired or cancelled one can be made again (C04_reregistrable), a descriptor callback runs only if a poll issued after its registration reported that direction or the latest '
-               'poll reported ERR/HUP (C04_socket_invoke_justified), a timer never runs before registration-or-reset reading + timeout, with no monotonicity assumption (C04_timer_not_early). '
-               'Unbounded in program length, number of registrations and schedule. Bound to the C by the correspondence run: generated programs (cancel under the scan cursor, both directions on one '
-               'descriptor, resets, ties) run on the real event loop with poll(2) and the clock interposed; implementation trace = model trace, and the extracted checker is evaluated on the '
-               "IMPLEMENTATION's trace.",
+               'poll reported ERR/HUP (C04_socket_invoke_justified), a timer never runs before registration-or-reset reading + timeout, with no monotonicity assumption (C04_timer_not_early). The '
+               'model never answers Fault for any program, call sequence, schedule and fuel (C04_model_never_faults, no hypotheses) and an assert of the C fails only for prio >= 32 or fd >= INT_MAX '
+               '(C04_model_asserts_only_outside_contract, with both limits shown real), so every run inside that contract returns a trace the theorems speak about or runs out of fuel '
+               '(C04_model_run_or_out_of_fuel). 12 theorems, unbounded in program length, number of registrations and schedule. Bound to the C by the correspondence run: generated programs (cancel '
+               'under the scan cursor, both directions on one descriptor, resets, ties) run on the real event loop with poll(2) and the clock interposed; implementation trace = model trace, and the '
+               "extracted checker is evaluated on the IMPLEMENTATION's trace.",
  'level_note': 'Trusted: Coq kernel; hand-written Gallina model of events*.c bound by differential execution (ASan/UBSan, interposed poll/clock_gettime); timevals normalised (tv_usec < 10^6) as '
                'monoclock_get delivers; theorems hold for every fuel (OutOfFuel = no trace; Events/EventsExamples.v exhibits a run in which all three kinds fire). Print Assumptions: closed under the '
-               'global context.',
+               'global context. Event records are values in the model: mpool recycling / pointer aliasing of records is trusted to the differential run (ASan).',
  'trusted_base': ['interposition of poll(2) and clock_gettime in harness/drv_events.c', 'tools/extract/x_events.py'],
  'assumptions': ['clock readings and timeouts are normalised timevals', 'callers pass descriptors below the poll-array limits the library documents']}
